@@ -416,6 +416,7 @@ func c13Program(r *RNG) (GoProg, map[string]bool) {
 	feat := map[string]bool{}
 	var sb strings.Builder
 	w := func(f string, a ...any) { fmt.Fprintf(&sb, f, a...) }
+	w("type RuneS []rune\n\ntype Int32S []int32\n\ntype RuneT rune\n\n")
 	w("func digits(s string) int {\n\tn := 0\n\tfor i := 0; i < len(s); i++ {\n\t\tif s[i]-'0' <= 9 {\n\t\t\tn++\n\t\t}\n\t}\n\treturn n\n}\n\n")
 	w("func main() {\n")
 	names := []string{"s", "t", "u"}
@@ -479,8 +480,11 @@ func c13Program(r *RNG) (GoProg, map[string]bool) {
 			feat["append-string-spread"] = true
 			feat["copy-from-string"] = true
 			if r.Bool() {
-				w("if true {\n\trs := []rune(%s)\n\tprintln(\"runes\", len(rs), string(rs) == %s, string(rs))\n\tfor i, x := range rs {\n\t\tprintln(i, x)\n\t}\n}\n", a, a)
+				// rune is int32: the conversion may be spelled with either name, or with a type defined from them
+				rt := Pick(r, []string{"[]rune", "[]rune", "[]int32", "RuneS", "Int32S", "[]RuneT"})
+				w("if true {\n\trs := %s(%s)\n\tprintln(\"runes\", len(rs), string(rs) == %s, string(rs))\n\tfor i, x := range rs {\n\t\tprintln(i, x)\n\t}\n}\n", rt, a, a)
 				feat["to-runes"] = true
+				feat["to-runes-spelled-"+rt] = true
 			}
 		case 8:
 			w("println(\"digits\", digits(%s))\n", a)
